@@ -68,3 +68,80 @@ UNITS = {
         },
     },
 }
+
+
+# ------------------------------------------------------------------ alias
+ALIAS = "src/weighted/weighted_alias.rs"
+ALIAS_IMPL = [r"^impl\s*<\s*W\s*:\s*AliasableWeight\s*>\s*WeightedAliasIndex\s*<\s*W\s*>$"]
+ALIAS_DIST_IMPL = [r"^impl\b.*\bDistribution\s*<\s*usize\s*>\s*for\s+WeightedAliasIndex\s*<\s*W\s*>$"]
+ALIASES_IMPL = ALIAS_IMPL + [r"\bfn new\b", r"^impl Aliases$"]
+
+
+def _deref_to_index(env):
+    """$body2 := $body with every `* $x` replaced by `$s [ i_ ]`"""
+    from rtok import Tok
+    x, s = env["x"][0].text, env["s"][0]
+    out, body, i = [], env["body"], 0
+    while i < len(body):
+        if body[i].text == "*" and i + 1 < len(body) and body[i + 1].text == x:
+            ln = body[i].line
+            out += [Tok(s.text, ln, "id", "rule:R9"), Tok("[", ln, "punct", "rule:R9"), Tok("i_", ln, "id", "rule:R9"), Tok("]", ln, "punct", "rule:R9")]
+            i += 2
+        else:
+            out.append(body[i]); i += 1
+    env = dict(env); env["body2"] = out
+    return env
+
+
+R6_hoist = Rule("R6", "struct Aliases { $f } impl Aliases { $m }", "",
+                "fn-local items `struct Aliases` / `impl Aliases` are hoisted to module level (items capture nothing); its methods are extracted as separate functions")
+R5_map_max = Rule("R5", ".map(|n| $b)", ".map(|n: W| -> (r: W) requires n != 0 ensures r == $b { $b })",
+                  "closure parameter typed; closure given a `requires n != 0` and an `ensures` restating its literal body")
+R8_all = Rule("R8", "!$v:tok.iter().all(|&$w:tok| $pred)",
+              "!vec_all(&$v, |$w: W| -> (r_: bool) ensures r_ == ($pred) { $pred })",
+              "`slice.iter().all(|&w| P)` -> prelude `vec_all(&v, |w| P)` (assumed: true iff P holds for every element); the predicate text itself stays under verification")
+R8_sum = Rule("R8", "AliasableWeight::sum($s)", "weight_sum_of($s)",
+              "`AliasableWeight::sum` (= `iter().copied().sum()`) -> prelude `weight_sum_of` (assumed: exact sum, requires no overflow)")
+R8_boxed = Rule("R8", "$v:tok.into_boxed_slice()", "into_boxed_slice($v)", "`Vec::into_boxed_slice` -> prelude fn (assumed: same sequence)")
+R8_zeros = Rule("R8", "vec![0; $n].into_boxed_slice()", "boxed_zeros($n)", "`vec![0; n].into_boxed_slice()` -> prelude fn (assumed: n zeros)")
+R8_veczeros = Rule("R8", "vec![W::ZERO; $n]", "vec_zeros($n)", "`vec![W::ZERO; n]` -> prelude fn (assumed: n zeros)")
+R8_uni_u32 = Rule("R8", "Uniform::new(0, $n)", "uniform_new_u32(0, $n)", "`Uniform::<u32>::new(lo, hi)` -> prelude fn (assumed: Ok iff lo < hi, and then samples in [lo, hi))")
+R8_uni_w = Rule("R8", "Uniform::new(W::ZERO, $s)", "uniform_new_w(W::ZERO, $s)", "`Uniform::<W>::new(lo, hi)` -> prelude fn (assumed: Ok iff lo < hi, and then samples in [lo, hi))")
+R9_iter_mut = Rule("R9", "for $x:tok in $s:tok.iter_mut() { $body }", "let len_ = $s.len(); for i_ in 0..len_ { $body2 }",
+                   "`for x in s.iter_mut() { ..*x.. }` -> index loop over 0..s.len() with `*x` spelled `s[i_]` (std's definition of iter_mut over a slice)")
+R9_iter_mut.post = _deref_to_index
+R9_enum = Rule("R9", "for ($i:tok, &$x:tok) in $s:tok.iter().enumerate() { $body }",
+               "let len2_ = $s.len(); for $i in 0..len2_ { let $x = $s[$i]; $body }",
+               "`for (i, &x) in s.iter().enumerate()` -> index loop with `let x = s[i];` (std's definition of enumerate over a slice)")
+R10_zip = Rule("R10", "self.no_alias_odds.iter().zip(&alias_contributions).map(|(&$a:tok, &$b:tok)| { $body }).collect()",
+               "zip_map(&self.no_alias_odds, &alias_contributions, |$a: W, $b: W| -> (r_: W) requires 0 <= $a as int + $b as int <= W::MAX as int, n_converted > 0 ensures r_ as int == ($a as int + $b as int) / (n_converted as int) { $body })",
+               "`a.iter().zip(&b).map(|(&x,&y)| E).collect()` -> prelude `zip_map(a, b, |x,y| E)` (assumed: element-wise application); the closure body E stays under verification against `(x + y) / n`")
+
+UNITS["alias"] = {
+    "name": "alias",
+    "self_type": "WeightedAliasIndex",
+    "template": os.path.join(HERE, "specs", "alias.vspec.rs"),
+    "types": ["u8", "u16", "u32", "u64", "u128", "usize", "i8", "i16", "i32", "i64", "i128"],
+    "quick_types": ["u64", "i32"],
+    "structs": {"WeightedAliasIndex": {"file": ALIAS, "fields": ["aliases", "no_alias_odds", "uniform_index", "uniform_within_weight_sum", "weight_sum"]},
+                "Aliases": {"file": ALIAS, "fields": ["aliases", "smalls_head", "bigs_head"]}},
+    "functions": {
+        "aliases_new": {"file": ALIAS, "path": ALIASES_IMPL, "self_type": "Aliases", "name": "new", "rules": [R8_zeros]},
+        "push_small": {"file": ALIAS, "path": ALIASES_IMPL, "self_type": "Aliases", "name": "push_small"},
+        "push_big": {"file": ALIAS, "path": ALIASES_IMPL, "self_type": "Aliases", "name": "push_big"},
+        "pop_small": {"file": ALIAS, "path": ALIASES_IMPL, "self_type": "Aliases", "name": "pop_small"},
+        "pop_big": {"file": ALIAS, "path": ALIASES_IMPL, "self_type": "Aliases", "name": "pop_big"},
+        "smalls_is_empty": {"file": ALIAS, "path": ALIASES_IMPL, "self_type": "Aliases", "name": "smalls_is_empty"},
+        "bigs_is_empty": {"file": ALIAS, "path": ALIASES_IMPL, "self_type": "Aliases", "name": "bigs_is_empty"},
+        "set_alias": {"file": ALIAS, "path": ALIASES_IMPL, "self_type": "Aliases", "name": "set_alias"},
+        "new": {"file": ALIAS, "path": ALIAS_IMPL, "name": "new",
+                "rules": [R6_hoist, R5_map_max, R8_all, R8_sum, R8_boxed, R9_iter_mut, R9_enum, R8_uni_u32, R8_uni_w]},
+        "weights": {"file": ALIAS, "path": ALIAS_IMPL, "name": "weights", "rules": [R8_veczeros, R10_zip]},
+        "sample": {"file": ALIAS, "path": ALIAS_DIST_IMPL, "name": "sample", "rules": [R7_rng]},
+        "try_from_u32_lossy": {"file": ALIAS, "path": [r"^macro_rules\s*!\s*impl_weight_for_int$", r"ident", r"^impl AliasableWeight for \$\s*T$"], "name": "try_from_u32_lossy"},
+    },
+    "property_of": {
+        "C08": ["*"],
+        "C04": ["new", "try_from_u32_lossy"],
+    },
+}
